@@ -353,8 +353,19 @@ def daylight_only_witness(rng=None):
     return {'tzid': 'X/DstOnly', 'family': 'wild', 'obs': obs}
 
 
+def empty_standard_witness():
+    """a STANDARD observance whose RRULE expands to nothing (UNTIL before DTSTART) next to one DAYLIGHT onset: no standard
+    transition exists, so the DST amount search fails exactly as for a DAYLIGHT-only definition (predicted from the model:
+    Lean C12.assertion_error_iff_daylight_only)"""
+    std = {'kind': 'STANDARD', 'dtstart': dt.datetime.combine(nth_weekday(2000, 10, -1, 6), dt.time(3, 0)), 'off_from': 7200, 'off_to': 3600,
+           'tzname': 'S', 'rule': {'type': 'rrule', 'month': 10, 'nth': -1, 'wd': 6, 'count': None, 'until': dt.datetime(1999, 1, 1)}}
+    day = {'kind': 'DAYLIGHT', 'dtstart': dt.datetime(2000, 3, 26, 2, 0), 'off_from': 3600, 'off_to': 7200, 'tzname': 'D', 'rule': None}
+    return {'tzid': 'X/EmptyStd', 'family': 'wild', 'obs': [std, day]}
+
+
 def definitions(ctx, n_pair, n_chain, n_wild):
     yield d23_witness()
+    yield empty_standard_witness()
     yield same_name_witness()
     yield until_witness()
     yield nondst_witness()
@@ -668,7 +679,9 @@ def classify(d, prov, t, es):
     for o in d['obs']:
         if o['tzname'] is not None:
             names.setdefault(o['tzname'], set()).add(o['kind'])
-    if prov == 'pytz' and not any(o['kind'] == 'STANDARD' for o in d['obs']):
+    # exact region (Lean C12.assertion_error_iff_daylight_only): every observance that contributes an onset is DAYLIGHT;
+    # a STANDARD observance whose rule expands to nothing does not help
+    if prov == 'pytz' and not any(o['kind'] == 'STANDARD' and expand(o) for o in d['obs']):
         return 'daylight-only-definition'
     if prov == 'pytz' and any(len(k) > 1 for k in names.values()):
         return 'tzname-shared-by-standard-and-daylight'
@@ -707,6 +720,12 @@ def check_definition(ctx, d):
             continue
         bad = None
         got_all = []
+        if any(not expand(o) for o in d['obs']):
+            # a rule whose UNTIL precedes its DTSTART: whether DTSTART still counts as an onset is read differently by RFC 5545
+            # 3.3.10 ("the DTSTART property value always counts as the first occurrence") and by the rule text alone; dateutil
+            # keeps DTSTART. The oracle takes no side: only the construction is checked for such definitions (DESIGN 5.3/14).
+            ctx.count('oracle:empty-rule-instants-skipped')
+            continue
         for t in ins:
             want = rfc_at(d, es, t)
             if want is None or want == 'tie':
